@@ -652,7 +652,7 @@ def replay_witnesses(ctx):
 
 
 def run(ctx):
-    pairs = gen_pairs(ctx, 8000 if ctx.thorough else 600)
+    pairs = gen_pairs(ctx, 6000 if ctx.thorough else 600)
     cases, iocases = [], []
     for t1, t2 in pairs:
         one_pair(ctx, t1, t2, cases, iocases=iocases)
